@@ -17,7 +17,7 @@ META = dict(
     category='proof')
 
 QUICK = dict(spec=2600, sign=500, rev=450, local=500, plan_rand=900, raw=900)
-THOROUGH = dict(spec=30000, sign=5000, rev=5000, local=6000, plan_rand=12000, raw=12000)
+THOROUGH = dict(spec=18000, sign=3000, rev=3000, local=4000, plan_rand=8000, raw=8000)
 
 
 # ----------------------------------------------------------------------------- generators
